@@ -573,6 +573,18 @@ func (b *Builder) BvBin(op Op, x, y *Term) *Term {
 			}
 		}
 	}
+	// (z * c) / c == z when the product cannot wrap (syntactic unsigned upper bound of z):
+	// the alpha un-premultiplication of image/color for opaque pixels, (v*257*255)/255
+	if op == OBvUDiv && y.IsConst() && y.C != 0 && x.Op == OBvMul {
+		for i := 0; i < 2; i++ {
+			c, z := x.Args[i], x.Args[1-i]
+			if c.IsConst() && c.C == y.C {
+				if ub := ubound(z, 12); ub <= mask(w)/c.C {
+					return z
+				}
+			}
+		}
+	}
 	// commutative normalisation
 	switch op {
 	case OBvAdd, OBvMul, OBvAnd, OBvOr, OBvXor:
@@ -582,6 +594,79 @@ func (b *Builder) BvBin(op Op, x, y *Term) *Term {
 	}
 	// (zero_ext x) << k | ... are left to the solver
 	return b.mk(op, x.Sort, 0, 0, "", x, y)
+}
+
+// ubound is a syntactic unsigned upper bound of a bit-vector term (depth-limited).
+func ubound(t *Term, depth int) uint64 {
+	w := t.Sort.W
+	full := mask(w)
+	if t.IsConst() {
+		return t.C
+	}
+	if depth == 0 {
+		return full
+	}
+	bitsOf := func(v uint64) uint64 {
+		n := uint64(0)
+		for v != 0 {
+			n++
+			v >>= 1
+		}
+		return n
+	}
+	min := func(a, b uint64) uint64 {
+		if a < b {
+			return a
+		}
+		return b
+	}
+	switch t.Op {
+	case OZeroExt:
+		return ubound(t.Args[0], depth-1)
+	case OBvAnd:
+		return min(ubound(t.Args[0], depth-1), ubound(t.Args[1], depth-1))
+	case OBvOr, OBvXor:
+		a, c := ubound(t.Args[0], depth-1), ubound(t.Args[1], depth-1)
+		if c > a {
+			a = c
+		}
+		return min(full, mask(int(bitsOf(a))))
+	case OBvAdd:
+		a, c := ubound(t.Args[0], depth-1), ubound(t.Args[1], depth-1)
+		if a <= full-c && a+c >= a {
+			return a + c
+		}
+	case OBvMul:
+		a, c := ubound(t.Args[0], depth-1), ubound(t.Args[1], depth-1)
+		if a == 0 || c == 0 {
+			return 0
+		}
+		if a <= full/c {
+			return a * c
+		}
+	case OBvShl:
+		if t.Args[1].IsConst() && t.Args[1].C < 64 {
+			a := ubound(t.Args[0], depth-1)
+			if a <= full>>t.Args[1].C {
+				return a << t.Args[1].C
+			}
+		}
+	case OBvLshr:
+		if t.Args[1].IsConst() && t.Args[1].C < 64 {
+			return ubound(t.Args[0], depth-1) >> t.Args[1].C
+		}
+	case OBvUDiv:
+		if t.Args[1].IsConst() && t.Args[1].C != 0 {
+			return ubound(t.Args[0], depth-1) / t.Args[1].C
+		}
+	case OIte:
+		a, c := ubound(t.Args[1], depth-1), ubound(t.Args[2], depth-1)
+		if c > a {
+			a = c
+		}
+		return a
+	}
+	return full
 }
 
 func (b *Builder) BvNot(x *Term) *Term {
@@ -825,6 +910,17 @@ func (b *Builder) FpBin(op Op, x, y *Term) *Term {
 			}
 		}
 		return b.FPConst(r, w)
+	}
+	// x*1, 1*x and x/1 are exact in IEEE 754 for every x (zeros, infinities and NaN
+	// included; SMT-LIB has a single NaN): no rounding happens
+	if op == OFpMul && y.IsConst() && y.F == 1 {
+		return x
+	}
+	if op == OFpMul && x.IsConst() && x.F == 1 {
+		return y
+	}
+	if op == OFpDiv && y.IsConst() && y.F == 1 {
+		return x
 	}
 	return b.mk(op, x.Sort, 0, 0, "", x, y)
 }
